@@ -5,6 +5,7 @@ package c16
 // quiescence) the views named by the property are read and compared.
 
 import (
+	"Havoc/pkg/verifhook"
 	"bytes"
 	"crypto/tls"
 	"encoding/json"
@@ -17,6 +18,7 @@ import (
 	"sort"
 	"strconv"
 	"strings"
+	"sync"
 	"time"
 
 	"Havoc/cmd/server"
@@ -40,6 +42,10 @@ type Op struct {
 	K   string `json:"k,omitempty"`
 	N   string `json:"n,omitempty"`
 	Occ bool   `json:"occ,omitempty"` // Http add: the harness holds the port first (failed start)
+	// remove: while the removal is between stopping the listener and deleting its database
+	// row (hook ts.listener_remove.mid) a listener of kind Mid with the same name is started
+	// through the API, as a second operator's add handled at that moment would be
+	Mid string `json:"mid,omitempty"`
 }
 
 func (o Op) String() string {
@@ -367,6 +373,23 @@ func (s *session) apply(op Op) {
 		s.broken = "unknown op " + op.V
 		return
 	}
+	midTried, midOK := false, false
+	if op.V == "remove" && op.Mid != "" && cur != nil && cur.Kind != "service-exc2" {
+		var once sync.Once
+		verifhook.Set("ts.listener_remove.mid", func() {
+			once.Do(func() {
+				midTried = true
+				var err error
+				if op.Mid == "External" {
+					err = s.r.TS.ListenerStart(handlers.LISTENER_EXTERNAL, handlers.ExternalConfig{Name: op.N, Endpoint: "ep-" + op.N})
+				} else {
+					err = s.r.TS.ListenerStart(handlers.LISTENER_PIVOT_SMB, handlers.SMBConfig{Name: op.N, PipeName: "pipe-" + op.N})
+				}
+				midOK = err == nil
+			})
+		})
+		defer verifhook.Set("ts.listener_remove.mid", nil)
+	}
 	if err := s.alice.SendRaw(pkgJSON(opclient.EvListener, "alice", sub, info, s.onetime)); err != nil {
 		s.broken = "send failed: " + err.Error()
 		return
@@ -449,6 +472,14 @@ func (s *session) apply(op Op) {
 			s.wasHTTP[op.N] = cur.Port
 		}
 		delete(s.model, op.N)
+		if midTried {
+			s.c.Observe("add-during-removal", 1)
+			if midOK {
+				// accepted: then it is a listener like any other, in all three views
+				s.c.Observe("add-during-removal-accepted", 1)
+				s.model[op.N] = &mListener{Kind: op.Mid}
+			}
+		}
 	case "edit":
 		if cur == nil {
 			s.c.Observe("op:edit-unknown", 1)
@@ -900,7 +931,7 @@ func (s *session) checkViews(fresh bool) {
 		s.find("endpoints-vs-running:"+em(ex, mi), fmt.Sprintf("routed endpoints %v, endpoints of the running External listeners %v", setOf(haveEP), setOf(extEndpoints)), nil)
 	}
 	refSt, refBody := s.unroutedRef()
-	for _, n := range []string{"A", "B"} {
+	for _, n := range opNames(s.hist) {
 		ep := "ep-" + n
 		st, body := s.postTS(ep)
 		routed := !(st == refSt && body == refBody)
